@@ -177,7 +177,8 @@ def gen_case(run_seed: int, tier: str, index: int = 0) -> dict:
         for _ in range(r.choice([0, 0, 0, 1, 1, 2])):
             x = r.random()
             if depth < 3 and (depth == 0 or x < 0.45):
-                evs.append("enter")
+                # sometimes the journal that is already active is entered again (same object)
+                evs.append("reenter" if (depth > 0 and r.random() < 0.15) else "enter")
                 depth += 1
             elif depth > 0:
                 evs.append("exit" if x < 0.8 else "raise")
@@ -241,6 +242,7 @@ def run_journaled(op_list: list, plan: dict, stats: dict, consumer: int = 0, hoo
     stack: list = []
     out = []
     hook_state = {"seen": 0, "fired_at_op": None, "op": -1}
+    r_pick = [0]
 
     def faulty_hook(e):
         _read_entry(e)
@@ -253,7 +255,19 @@ def run_journaled(op_list: list, plan: dict, stats: dict, consumer: int = 0, hoo
     try:
         for i in range(len(op_list) + 1):
             for ev in plan.get(str(i), []):
-                if ev == "enter":
+                if ev == "reenter" and any(x is not None for x in stack):
+                    live_ = [x for x in stack if x is not None]
+                    jr = live_[r_pick[0] % len(live_)]
+                    r_pick[0] += 1
+                    try:
+                        jr.__enter__()
+                    except RuntimeError:
+                        inc("journal_reenter_refused")  # a clear refusal is fine - it must simply change nothing
+                        stack.append(None)
+                    else:
+                        inc("journal_reenter_accepted")
+                        stack.append(jr)
+                elif ev in ("enter", "reenter"):
                     if len(stack) < 3:
                         jr = _j.Journal()
                         if consumer == 3:
@@ -269,6 +283,8 @@ def run_journaled(op_list: list, plan: dict, stats: dict, consumer: int = 0, hoo
                         inc(f"journal_depth_{len(stack)}")
                 elif stack:
                     jr = stack.pop()
+                    if jr is None:
+                        continue  # the matching enter was refused
                     if ev == "exit":
                         jr.__exit__(None, None, None)
                         inc("journal_exit_normal")
@@ -276,18 +292,20 @@ def run_journaled(op_list: list, plan: dict, stats: dict, consumer: int = 0, hoo
                         e = RuntimeError("thrown inside the journal block")
                         jr.__exit__(RuntimeError, e, None)
                         inc("journal_exit_by_exception")
-                    if not stack:
+                    live = [x for x in stack if x is not None]
+                    if not live:
                         bad = _compare_with(observer_table)
                         if bad is not None and viol is None:
                             viol = {"clause": "classes-not-restored", "detail": f"after leaving the outermost journal before op {i}, {bad} is not what it was before entering", "key": "classes-not-restored"}
                         if _j.get_current_journal() is not None and viol is None:
                             viol = {"clause": "current-journal-not-restored", "detail": "get_current_journal() is not None after the outermost exit", "key": "current-journal-not-restored"}
-                    elif _j.get_current_journal() is not stack[-1] and viol is None:
+                    elif _j.get_current_journal() is not live[-1] and viol is None:
                         viol = {"clause": "current-journal-not-restored", "detail": "after leaving a nested journal the enclosing one is not current", "key": "current-journal-not-restored"}
             if i == len(op_list):
                 break
             op = op_list[i]
-            before_counts = [len(jr.entries) for jr in stack]
+            active = list({id(x): x for x in stack if x is not None}.values())
+            before_counts = [len(jr.entries) for jr in active]
             log_start = len(obs.log)
             hook_state["op"] = i
             r = ops.apply_op(w, op)
@@ -307,7 +325,7 @@ def run_journaled(op_list: list, plan: dict, stats: dict, consumer: int = 0, hoo
                 # entries / calls are not compared (everything before and after is)
                 inc("hook_fault_fired")
                 continue
-            for jr, n0 in zip(stack, before_counts):
+            for jr, n0 in zip(active, before_counts):
                 new = jr.entries[n0:]
                 inc("entries_recorded", len(new))
                 got: dict = {}
@@ -331,6 +349,8 @@ def run_journaled(op_list: list, plan: dict, stats: dict, consumer: int = 0, hoo
     finally:
         while stack:
             jr = stack.pop()
+            if jr is None:
+                continue
             try:
                 jr.__exit__(None, None, None)
             except Exception:  # noqa: BLE001
